@@ -1023,3 +1023,74 @@ func c09SplitClamp(c *Ctx) {
 	})
 	c.Floor(R, "frame list allocations in splitRange", n, 1)
 }
+
+// C10.8: the synthesized token is never shorter than its fixed prefix; the minimum-UDP-size padding applies only to
+// datagrams whose size the plan does not pin.
+func c10TokenAndPadding(c *Ctx) {
+	const R = "C10.8"
+	tl := c.fn("", "InitialPacketSpec", "tokenLength")
+	ctl := c.fld("", "InitialPacketSpec", "ClientTokenLength")
+	ctp := c.fld("", "InitialPacketSpec", "ClientTokenPrefix")
+	ok := false
+	eachInstr(tl, func(in ssa.Instruction) {
+		if r, isR := in.(*ssa.Return); isR && MinMaxOf("max", Load(ctl), LenOf(Load(ctp)))(retResults(r)[0]) {
+			ok = true
+		}
+	})
+	c.Check(ok, R, "shape:tokenLength=max(ClientTokenLength, len(ClientTokenPrefix))", c.P.Pos(tl.Pos()), "a token shorter than its prefix would be the truncated prefix: fixed bytes, identical on every dial")
+	f := c.fn("", "uPacketPacker", "appendInitialPacketPayload")
+	minSize := c.fld("", "QUICSpec", "UDPDatagramMinSize")
+	psz := c.fld("", "InitialPacketPlan", "PacketSize")
+	// every read of UDPDatagramMinSize that sizes padding sits under PacketSize == 0
+	n := 0
+	eachInstr(f, func(in ssa.Instruction) {
+		u, isU := in.(*ssa.UnOp)
+		if !isU || !Load(minSize)(u) {
+			return
+		}
+		n++
+		okG := dominatedByEdge(u.Block(), Rel{Op: token.EQL, X: Load(psz), Y: ConstI(0)}, false)
+		c.Check(okG, R, "guard:minimum-UDP-size padding only when the plan does not pin the packet size", c.P.InstrPos(in),
+			"InitialPacketPlan.PacketSize is an exact size; padding such a datagram up to UDPDatagramMinSize changes the size the spec asked for")
+	})
+	c.Floor(R, "uses of UDPDatagramMinSize in appendInitialPacketPayload", n, 1)
+}
+
+// C11.8: PopulateFromUQUIC writes into the spec's parameter list only the placeholder it recognised: the store into
+// the list is reached only past the successful type assertion and the empty-value test.
+func c11PlaceholderOnly(c *Ctx) {
+	const R = "C11.8"
+	f := c.fn("internal/wire", "TransportParameters", "PopulateFromUQUIC")
+	n := 0
+	eachInstr(f, func(in ssa.Instruction) {
+		st, ok := in.(*ssa.Store)
+		if !ok {
+			return
+		}
+		ia, ok := st.Addr.(*ssa.IndexAddr)
+		if !ok || !ParamV("quicparams")(ia.X) {
+			return
+		}
+		n++
+		// dominated by the comma-ok true edge of an assertion to tls.InitialSourceConnectionID
+		okAssert := false
+		for d := st.Block(); d != nil && d.Idom() != nil; d = d.Idom() {
+			id := d.Idom()
+			ifi, isIf := id.Instrs[len(id.Instrs)-1].(*ssa.If)
+			if !isIf || len(d.Preds) != 1 || id.Succs[0] != d {
+				continue
+			}
+			if ex, isEx := ifi.Cond.(*ssa.Extract); isEx && ex.Index == 1 {
+				if ta, isTA := ex.Tuple.(*ssa.TypeAssert); isTA && ta.CommaOk {
+					if nm := namedOf(ta.AssertedType); nm != nil && nm.Obj().Name() == "InitialSourceConnectionID" {
+						okAssert = true
+					}
+				}
+			}
+		}
+		okEmpty := dominatedByEdge(st.Block(), Rel{Op: token.GTR, X: LenOf(Any()), Y: ConstI(0)}, true) || dominatedByEdge(st.Block(), Rel{Op: token.EQL, X: LenOf(Any()), Y: ConstI(0)}, false)
+		c.Check(okAssert && okEmpty, R, "write:only the empty InitialSourceConnectionID placeholder is filled in", c.P.InstrPos(in),
+			"every other parameter of the list — raw/fake ones with the same ID included — must reach the wire exactly as the spec gives it")
+	})
+	c.Floor(R, "stores into the spec's parameter list", n, 1)
+}
